@@ -207,6 +207,7 @@ def trace_validation(v, exe, n, nt, ops, seed, nexec, spurpct):
     cfg = L.write_cfg("C19_trace_%d_%d_%d" % (n, nt, ops), n, nt, ops, grap=False, trace=True)
 
     def once():
+        exe = L.harness()
         rc, lines, err = vlib.run_lines(exe, None, args=["random", str(n), str(nt), str(ops), str(seed), str(nexec), str(spurpct)], timeout=300)
         if rc != 0 or not lines:
             raise Infra("lfcache_replay random failed rc=%s %s" % (rc, err[-1000:]))
@@ -286,7 +287,7 @@ def sequential(v, maxlen):
     text = "\n".join(lines) + "\n"
     total = 0
     for variant, defs in (("shared", ()), ("thread_local", ("SQUIDS_THREAD_LOCAL=thread_local",))):
-        exe = vlib.build_harness("lfcache_seq", "plain", link_lib=False, extra_defs=defs)
+        exe = L.harness("lfcache_seq", defs)
         rc, out, err = vlib.run_lines(exe, text, timeout=300)
         done = [l for l in out if l.startswith("DONE")]
         if rc != 0 or not done or not out or out[0] != "VARIANT " + variant:
@@ -299,6 +300,11 @@ def sequential(v, maxlen):
                 p = l.split()
                 idx, step, what, exp, got = int(p[1]), int(p[2]), p[3], p[4], p[5]
                 cap, s = sorted(leaves)[idx]
+                per = v.cov.setdefault("mismatches_per_key", {})
+                skey = "seq/%s/%s/N=%d" % (variant, what.split("[")[0], cap)
+                per[skey] = per.get(skey, 0) + 1
+                if per[skey] > PER_KEY:
+                    continue
                 v.violation("seq/%s/%s/N=%d" % (variant, what.split("[")[0], cap),
                             "%s variant, capacity %d, history %s, call %d: %s expected %s, got %s" % (variant, cap, s[:step], step, what, exp, got),
                             {"kind": "seq", "variant": variant, "line": lines[idx]})
@@ -363,10 +369,20 @@ def run_replay_file(v, exe, path):
 def run(v, tier, seed, replay):
     global T0
     T0 = time.time()
-    exe = vlib.build_harness("lfcache_replay", "plain", link_lib=False)
+    exe = L.harness()
     rc, out, err = vlib.run_lines(exe, None, args=["lockfree"], timeout=30)
     if rc != 0 or out != ["LOCKFREE 1"]:
         raise Infra("std::atomic<list_head> is not lock-free on this platform (%s): a CAS is not one step" % out)
+    # the yield points must be compiled into Cache.h (patches/cache/hook-cache-yield.diff); without them a call runs
+    # from start to return in one step and every comparison would be a false alarm
+    rc, out, err = vlib.run_lines(exe, None, args=["probe"], timeout=30)
+    want_ins = "PROBE ins popLoad popNext popCas insWrite pushLoad pushLink pushCas ret idle res=1"
+    gets = {"PROBE get popLoad popNext popCas getRead pushLoad pushLink pushCas ret idle res=5": "payload read before the push (repaired)",
+            "PROBE get popLoad popNext popCas pushLoad pushLink pushCas getRead ret idle res=5": "payload read after the push (as originally written)"}
+    if rc != 0 or len(out) != 2 or out[0] != want_ins or out[1] not in gets:
+        raise Infra("Cache.h (shared variant) does not pass the expected yield points - are the SQUIDS_VERIF_YIELD hooks "
+                    "(patches/cache/hook-cache-yield.diff) applied to %s? probe output: %s" % (vlib.REPO, out))
+    v.cov["order_of_get_in_tree"] = gets[out[1]]
     if replay:
         return run_replay_file(v, exe, replay)
     thorough = tier == "thorough"
